@@ -141,9 +141,14 @@ def run_property(prop, rule_mod, repo='/repo', tier='quick', replay=None):
             raise AnalysisError('rule instance floor not met: %d obligations < floor %d (a rule matching too few '
                                 'sites would pass vacuously)' % (len(ctx.obs), rule_mod.FLOOR))
     except AnalysisError as ex:
-        print('ANALYSIS-ERROR property=%s %s' % (prop, ex))
-        _write_evidence(ev_path, prop, tier, seed, ctx, rule_mod, t0, error=str(ex))
-        return 2
+        # an obligation that has already failed is a verdict on the construct it names, whatever the analysis could not
+        # make sense of afterwards: report it (exit 1); only without a new violation is the run "no verdict" (exit 2)
+        open_now = {k['key'] for k in load_known().get('open', []) if k.get('property') == prop}
+        if ctx is None or not [o for o in ctx.obs if not o.ok and o.key not in open_now]:
+            print('ANALYSIS-ERROR property=%s %s' % (prop, ex))
+            _write_evidence(ev_path, prop, tier, seed, ctx, rule_mod, t0, error=str(ex))
+            return 2
+        print('ANALYSIS-INCOMPLETE property=%s the analysis stopped after the violation(s) below: %s' % (prop, ex))
     except Exception as ex:      # internal error: never a verdict
         traceback.print_exc()
         print('ANALYSIS-ERROR property=%s internal error: %s: %s' % (prop, type(ex).__name__, ex))
